@@ -66,7 +66,7 @@ def explore(lib, track_x=None, x0=0):
     it = Interp(lib, track_x=track_x)
 
     def norm(st):
-        return (st[0], st[1], x0)
+        return (st[0], st[1], x0 | (st[2] & Interp.ROOT_CONFLICT))
 
     def good(st):
         return st[0] in GOOD_BOUNDARY and st[1] == 0
@@ -236,6 +236,27 @@ def t_flag(led, rid, ctx, res):
     led.floor(rid, "flag/state pairs", len(seen), 3)
 
 
+def t_transitions(led, rid, ctx, res):
+    """T8: a recorded root conflict is definitive — it may only become Infeasible; Infeasible is
+    absorbing"""
+    it = res[0]
+    n = 0
+    for (s0, l0, s1), (fn, site) in sorted(it.transitions.items(), key=str):
+        n += 1
+        key = "%s/L%s->%s" % (s0, l0, s1)
+        bad = None
+        if s0 == "Infeasible" and s1 != "Infeasible":
+            bad = "the solver leaves the Infeasible state (%s): a proven root conflict is forgotten" % fn
+        elif s0 == "Conflict@root" and s1 not in ("Infeasible", "Conflict"):
+            bad = ("a conflict at decision level 0 is overwritten by state %s in %s: the refutation of "
+                   "the model is forgotten and a later solve can answer Satisfiable" % (s1, fn))
+        if bad:
+            led.bad(rid, key, site, bad)
+        else:
+            led.ok(rid, key, site, "in %s" % fn.rsplit("::", 1)[-1])
+    led.floor(rid, "life-cycle transitions observed", n, 10)
+
+
 def run(ctx, led):
     lib = ctx.lib
     try:
@@ -252,3 +273,9 @@ def run(ctx, led):
     run_rule(led, "T4", "no life-cycle assertion (condition a function of state/level) can fail "
              "under the most general client", t_assert, ctx, res)
     run_rule(led, "T1", "execution flag and life-cycle state agree when a solve returns", t_flag, ctx, res)
+    run_rule(led, "T8", "life-cycle transitions: a root conflict only ever becomes Infeasible and "
+             "Infeasible is absorbing (transition relation observed by the interpreter under the most "
+             "general client)", t_transitions, ctx, res)
+    from . import shared
+    run_rule(led, "T9", "no stale model: every solve overwrites the stored assumptions (shared with "
+             "C05-A3)", shared.assumptions_overwritten, ctx)
